@@ -58,3 +58,18 @@ def build(work, tier):
         'assumes': scan_assumes(rd('model.h') + open(os.path.join(QT, 'opaque.h')).read()),
         'not_covered': ['QXmppMessage::parse itself (what "exactly the inner message" contains is whatever the message parser produces from the inner element)'],
     }
+
+
+def find_input(unit, proof, ob, label, work):
+    """concretisation table (DESIGN 6, C11): the opaque sender becomes a battery of look-alike strings on the real library"""
+    from vlib import native
+    rc, out = native.run_driver(os.path.join(HERE, 'replay_carbon.cpp'), [])
+    bad = [l for l in out.splitlines() if l.startswith('VIOLATED')]
+    return {'inputs': {'driver': 'units/C11/replay_carbon.cpp', 'args': [], 'meaning': 'two own JIDs x 13 look-alike outer senders x sent/received x both manager generations',
+                       'first_failing_probes': bad[:6]}, 'native_output': out[-3000:], 'reproduced': rc == 1}
+
+
+def native_replay(rp):
+    from vlib import native
+    rc, out = native.run_driver(os.path.join(HERE, 'replay_carbon.cpp'), [])
+    return rc == 1, out[-3000:]
